@@ -1523,8 +1523,9 @@ def _len(sk, n, x):
         if fl is not None:
             return sk.call(fl, [x], {})
         raise Violation('SK2', 'len() of an object of %s.%s, which defines no __len__' % x._cls, n)
-    if x is None or isinstance(x, Tok):
-        raise Violation('SK2', 'len() of placeholder %r' % (x,), n)
+    if x is None or isinstance(x, (Tok, int, float, Fraction)):
+        # Python raises TypeError: caught by an `except TypeError` of the interpreted code (matrix x vector dispatch), a violation otherwise
+        raise Raised('TypeError', 'len() of %r, which has no length' % (x,), n)
     return len(x)
 
 
